@@ -30,24 +30,12 @@ def BodyFrame (scope : Str) (body : Vars → σ → BodyResult × Vars × σ) : 
 def CallerClean (scope : Str) (vars : Vars) : Prop :=
   ∀ k, underPrefix scope k = true → Vars.get vars k = none
 
-/-! ### `aliasRun` in one equation -/
+end Duck.Alias
 
-theorem aliasRun_few (H : HandleOps σ) (amount : Nat) (body : Vars → σ → BodyResult × Vars × σ)
-    (scope : Str) (args : List Str) (vars : Vars) (st : σ) (h : args.length < amount) :
-    aliasRun H amount body scope args vars st = (.error invalidArgsMsg, vars, st) := by
-  simp [aliasRun, h]
+namespace Duck
+open Duck.Alias
 
-theorem aliasRun_run (H : HandleOps σ) (amount : Nat) (body : Vars → σ → BodyResult × Vars × σ)
-    (scope : Str) (args : List Str) (vars : Vars) (st : σ) (h : ¬ args.length < amount) :
-    aliasRun H amount body scope args vars st =
-      (let p := publish H scope args vars (H.setCtx st scope)
-       let b := body p.2.1 p.2.2
-       let c := cleanup H scope (H.getCtx st) p.1 b.2.1 b.2.2
-       (if vars.length < c.1.length then .crash (leakMsg (c.1.length - vars.length)) else resultOf b.1,
-        c.1, c.2)) := by
-  unfold aliasRun
-  simp only [h, if_false]
-  split <;> rfl
+variable {σ : Type}
 
 /-! ### the frame -/
 
@@ -112,20 +100,6 @@ theorem C19_error_path (H : HandleOps σ) (amount : Nat)
                 (publish H scope args vars (H.setCtx st scope)).2.2).1 <;> rfl
 
 /-! ### the temporary argument array -/
-
-private theorem bne_eq_not_some_beq (k h : Str) : (k != h) = !(some h == some k) := by
-  by_cases e : k = h
-  · subst e; simp
-  · have h1 : (k == h) = false := by simpa using e
-    have h2 : (h == k) = false := by simpa using fun x : h = k => e x.symm
-    simp [bne, h1, h2]
-
-private theorem beq_eq_some_beq (k h : Str) : (k == h) = (some h == some k) := by
-  by_cases e : k = h
-  · subst e; simp
-  · have h1 : (k == h) = false := by simpa using e
-    have h2 : (h == k) = false := by simpa using fun x : h = k => e x.symm
-    simp [h1, h2]
 
 /-- Publication allocates exactly one fresh handle (none when there are no arguments); after the
     call the handle table is what the BODY left, minus that handle - on every path, because the
@@ -242,27 +216,30 @@ theorem C19_leak_detected (H : HandleOps σ) (amount : Nat)
 /-- What the detector can NOT see - this is why `C19_wrapper_frame` needs the frame hypothesis
     on the body and cannot lean on the detector: "whenever the call changes the value a caller
     variable reads, the command crashes". -/
-def DetectorSeesModification : Prop :=
+def C19_DetectorSeesModification : Prop :=
   ∀ (body : Vars → Store → BodyResult × Vars × Store) (scope : Str) (args : List Str) (vars : Vars)
     (st : Store), NK vars → CallerClean scope vars →
     (∃ k, Vars.get (aliasRun storeOps 0 body scope args vars st).2.1 k ≠ Vars.get vars k) →
     ∃ msg, (aliasRun storeOps 0 body scope args vars st).1 = .crash msg
 
-def overwritingBody : Vars → Store → BodyResult × Vars × Store :=
+def c19OverwritingBody : Vars → Store → BodyResult × Vars × Store :=
   fun vars st => (.finished none, vars.set "x".toList "changed".toList, st)
 
 /-- refuted: a body that overwrites the caller's `x` keeps the count, and the call "succeeds" -/
-example : ¬ DetectorSeesModification := by
+example : ¬ C19_DetectorSeesModification := by
   intro h
-  have hc := h overwritingBody "scope::t".toList [] [("x".toList, "1".toList)] {}
+  have hc := h c19OverwritingBody "scope::t".toList [] [("x".toList, "1".toList)] {}
     (by simp [NK, keys])
     (by intro k hk
         have hne : ¬ ("x".toList = k) := by intro e; rw [← e] at hk; revert hk; decide
-        simp [Vars.get, hne])
+        show (if "x".toList = k then some "1".toList else none) = none
+        rw [if_neg hne])
     ⟨"x".toList, by decide⟩
   obtain ⟨msg, hm⟩ := hc
-  revert hm
-  decide
+  have hr : (aliasRun storeOps 0 c19OverwritingBody "scope::t".toList [] [("x".toList, "1".toList)] {}).1
+      = .continue none := by decide
+  rw [hr] at hm
+  cases hm
 
 /-! ### bodies that are scripts -/
 
@@ -279,44 +256,6 @@ theorem C19_script_body_frame {scope : Str} {sem : CmdSem σ} {is : List Instruc
   | some res => exact evalInstructions_frame hsem hout fuel 0 none vars st res h k hk
 
 /-! ### per-script facts over the regenerated table -/
-
-/-- Callees without any effect on variables other than through their output variable (which the
-    script names, see `C19_scripts_prefix_discipline`) or - `for`/`end` - the loop variable.
-    Their purity is TRUSTED (exercised by the harness on the real commands), not proved:
-    flow control and conditions; pure values; handle allocation / mutation / release; file
-    system, network and console effects. -/
-def noVariableEffect : List Str :=
-  (["for", "end", "if", "elif", "else", "while", "not", "trigger_error",
-    "set", "equals", "calc", "strlen", "substring", "contains", "starts_with", "replace", "lowercase",
-    "is_empty", "is_defined", "is_array", "array_length", "map_size", "set_size", "map_get",
-    "os_family", "os_name", "os_release", "os_version", "is_file", "dirname", "basename", "digest",
-    "base64_encode", "base64_decode", "map_to_properties",
-    "array", "set_new", "map_keys", "env_to_map", "glob_array",
-    "array_push", "array_pop", "set_put", "release",
-    "echo", "cp", "chmod", "http_client"] : List String).map String.toList
-
-/-- the documented exceptions: `unset` exists to remove the CALLER's variables whose names it is
-    given, and does so through `set_by_name` -/
-def documentedEffect (s : Generated.ScriptCmd) (callee : Str) : Bool :=
-  s.scopeName == "scope::unset".toList && callee == "set_by_name".toList
-
-/-- another script command of the table (covered by the same facts) -/
-def isScriptCommand (callee : Str) : Bool :=
-  Generated.scripts.any fun s => s.name == callee || s.aliases.contains callee
-
-def calleeOK (s : Generated.ScriptCmd) (callee : Str) : Bool :=
-  noVariableEffect.contains callee || isScriptCommand callee || documentedEffect s callee
-
-/-- all three facts for one entry, in one evaluation of the parser -/
-def scriptOK (s : Generated.ScriptCmd) : Bool :=
-  match parseText s.script with
-  | .ok is => (writtenVars is).all (underPrefix s.scopeName) && (callees is).all (calleeOK s)
-  | .error _ => false
-
-theorem scripts_all_ok : Generated.scripts.all scriptOK = true := by decide +kernel
-
-theorem scriptOK_of_mem {s : Generated.ScriptCmd} (hs : s ∈ Generated.scripts) : scriptOK s = true :=
-  List.all_eq_true.mp scripts_all_ok s hs
 
 /-- every `script.ds` parses (so `AliasCommand::new` succeeds and the SDK loads) -/
 theorem C19_scripts_parse : ∀ s ∈ Generated.scripts, ∃ is, parseText s.script = .ok is := by
@@ -339,7 +278,8 @@ theorem C19_scripts_prefix_discipline :
   simp only [Bool.and_eq_true] at h
   exact List.all_eq_true.mp h.1 v hv
 
-/-- every command word a script uses is a callee without variable effects, another script command,
+/-- every command word a script uses is a callee without variable effects (the explicit list
+    `Alias.noVariableEffect` in Lemmas/AliasCmdLemmas.lean - TRUSTED, exercised by the harness), another script command,
     or the documented exception (`unset` → `set_by_name` on the caller's names) -/
 theorem C19_scripts_callees :
     ∀ s ∈ Generated.scripts, ∀ is, parseText s.script = .ok is →
@@ -386,30 +326,31 @@ example : ∃ s ∈ Generated.scripts, s.scopeName = "scope::unset".toList ∧ s
 example : storeOps.Lawful := storeOps_lawful
 
 /-- a body inside the frame: writes its own working variable, reads an argument -/
-def okBody : Vars → Store → BodyResult × Vars × Store :=
+def c19OkBody : Vars → Store → BodyResult × Vars × Store :=
   fun vars st => (.error "boom".toList, vars.set "scope::t::tmp".toList "1".toList, st)
 
-example : BodyFrame "scope::t".toList okBody := by
+example : BodyFrame "scope::t".toList c19OkBody := by
   intro vars st k hk
   have hne : k ≠ "scope::t::tmp".toList := by intro e; rw [e] at hk; revert hk; decide
-  simp [okBody, get_set, hne]
+  show Vars.get (Vars.set vars "scope::t::tmp".toList "1".toList) k = Vars.get vars k
+  rw [get_set, if_neg hne]
 
 /-- the error path end to end: arguments published, body fails, everything is cleaned -/
 example :
-    aliasRun storeOps 1 okBody "scope::t".toList ["a".toList, "b c".toList]
+    aliasRun storeOps 1 c19OkBody "scope::t".toList ["a".toList, "b c".toList]
       [("x".toList, "1".toList)] {} =
     (.error "boom".toList, [("x".toList, "1".toList)], {}) := by decide
 
 /-- too few arguments -/
 example :
-    aliasRun storeOps 3 okBody "scope::t".toList ["a".toList] [("x".toList, "1".toList)] {} =
+    aliasRun storeOps 3 c19OkBody "scope::t".toList ["a".toList] [("x".toList, "1".toList)] {} =
     (.error invalidArgsMsg, [("x".toList, "1".toList)], {}) := by decide
 
 /-- a leaking body (non-prefix variable `oops`) is turned into a crash -/
-def leakyBody : Vars → Store → BodyResult × Vars × Store :=
+def c19LeakyBody : Vars → Store → BodyResult × Vars × Store :=
   fun vars st => (.finished (some "v".toList), vars.set "oops".toList "1".toList, st)
 
-example : ∃ msg, (aliasRun storeOps 0 leakyBody "scope::t".toList [] [("x".toList, "1".toList)] {}).1
-    = .crash msg := ⟨_, by decide⟩
+example : ∃ msg, (aliasRun storeOps 0 c19LeakyBody "scope::t".toList [] [("x".toList, "1".toList)] {}).1
+    = .crash msg := ⟨_, rfl⟩
 
-end Duck.Alias
+end Duck
